@@ -17,6 +17,7 @@ import CtyModel.Lemmas.StdNumMisc
 import CtyModel.Lemmas.StdNumFmt
 import CtyModel.Lemmas.d14Fmt
 import CtyModel.Lemmas.d14Str
+import CtyModel.Lemmas.d14FormatList
 import CtyModel.Props.C02
 namespace CtyModel
 namespace C14
@@ -163,23 +164,23 @@ theorem parseint_digits (base : Nat) (hb : base ≤ 62) (body : List Char) (hne 
     setString ('+' :: body) base = some (digitsVal base body : Int) ∧
     setString ('-' :: body) base = some (-(digitsVal base body : Int)) := by
   obtain ⟨h1, h2, h3⟩ := (scan_body base body).1 ⟨hne, hall⟩
-  have hs := scanSign_digits base hb body hall
+  have hs := StdNum.scanSign_digits base hb body hall
   refine ⟨?_, ?_, ?_⟩
   · simp [setString, hs, h1, h2, h3]
-  · simp [setString, scanSign, h1, h2, h3]
-  · simp [setString, scanSign, h1, h2, h3]
+  · simp [setString, StdNum.scanSign, h1, h2, h3]
+  · simp [setString, StdNum.scanSign, h1, h2, h3]
 
 /-- `parseint`, rejects exactly the non-digits: if, after the optional sign, nothing
 is left or some character is not a digit of the base, the string is rejected. -/
 theorem parseint_rejects (base : Nat) (s : List Char)
-    (h : (scanSign s).2 = [] ∨ ∃ c ∈ (scanSign s).2, digitVal base c ≥ base) : setString s base = none := by
-  rcases (scan_body base (scanSign s).2).2 h with h0 | h1
+    (h : (StdNum.scanSign s).2 = [] ∨ ∃ c ∈ (StdNum.scanSign s).2, digitVal base c ≥ base) : setString s base = none := by
+  rcases (scan_body base (StdNum.scanSign s).2).2 h with h0 | h1
   · simp [setString, h0]
   · simp only [setString]
     split
     · rfl
-    · have : (scanDigits base (scanSign s).2 0 0).2.2.isEmpty = false := by
-        cases hx : (scanDigits base (scanSign s).2 0 0).2.2 with
+    · have : (scanDigits base (StdNum.scanSign s).2 0 0).2.2.isEmpty = false := by
+        cases hx : (scanDigits base (StdNum.scanSign s).2 0 0).2.2 with
         | nil => exact absurd hx h1
         | cons a t => rfl
       simp [this]
@@ -714,6 +715,126 @@ theorem format_never_panics (L : Lib) (f : String) (args : List Value) :
     | panic w => rw [hx] at h; simp [Res.isPanic] at h
     | unmodelled => rfl
 
+/-! ## formatlist -/
+
+/-- the arguments the model of `formatlist` speaks about: wholly known, unmarked, sets only of
+primitives (their iteration order is `setRules.Less`) -/
+def FlKnown (rest : List Value) : Prop :=
+  (rest.any fun a => !a.whollyKnown || a.containsMarked || !flSetOK a) = false
+
+/-- `format` on wholly known arguments is `formatFSM` on the format string + `cty.StringVal` … -/
+theorem format_is_formatFSM_on_known (L : Lib) (f : String) (row : List Value)
+    (hk : ∀ a ∈ row, a.whollyKnown = true) :
+    formatImpl L (sv f :: row) =
+      (match rowRes L f row with
+       | .ok s => .ok (stringVal L.nfc s)
+       | .err e => .err e
+       | .panic w => .panic w
+       | .unmodelled => .unmodelled) :=
+  formatImpl_known L f row hk
+
+/-- … and **`formatlist` is the element-wise `format`**: with `n` the common length of the
+iterated arguments (non-null lists, sets, tuples; `n = 1` when there is none), the result is
+the list of `formatFSM(f, row i)` for `i = 0 … n−1`, where row `i` holds the i-th member of
+every iterated argument and every other argument itself; the first row that fails ends the
+call with an error. -/
+theorem formatlist_is_pointwise_format (L : Lib) (f : String) (rest : List Value) (it : Option Nat)
+    (hk : FlKnown rest) (hne : rest ≠ []) (hl : flLen rest none = .ok it) (h0 : it ≠ some 0) :
+    formatListImpl L (sv f :: rest) =
+      (match collectRows L ((List.range (it.getD 1)).map fun i => rowRes L f (flArgsAt rest i)) with
+       | .ok ps => .ok ⟨.list .string, .seq ps⟩
+       | .err e => .err e
+       | .panic w => .panic w
+       | .unmodelled => .unmodelled) := by
+  have hlen : (rest.length == 0) = false := by
+    cases rest with
+    | nil => exact absurd rfl hne
+    | cons a t => rfl
+  have h0' : (it == some 0) = false := by simpa using h0
+  unfold FlKnown at hk
+  simp only [formatListImpl, arg0, Res.bind_ok, List.drop_succ_cons, List.drop_zero, hk, hlen, Bool.false_eq_true,
+    if_false, asString_sv, hl, h0', flIter_eq]
+  cases collectRows L ((List.range (it.getD 1)).map fun i => rowRes L f (flArgsAt rest i)) <;> rfl
+
+/-- **The length rule**: two iterated arguments of different lengths are the documented error … -/
+theorem formatlist_inconsistent_lengths_is_error (L : Lib) (f : String) (rest : List Value) (hk : FlKnown rest)
+    (a b : Value) (ha : a ∈ rest) (hb : b ∈ rest) (x y : List Value) (hx : flSeq a = some x) (hy : flSeq b = some y)
+    (hne : x.length ≠ y.length) :
+    formatListImpl L (sv f :: rest) = .err "inconsistent argument lengths" := by
+  have hlen : (rest.length == 0) = false := by
+    cases rest with
+    | nil => cases ha
+    | cons a t => rfl
+  unfold FlKnown at hk
+  simp only [formatListImpl, arg0, Res.bind_ok, List.drop_succ_cons, List.drop_zero, hk, hlen, Bool.false_eq_true,
+    if_false, asString_sv, flLen_inconsistent rest a b ha hb x y hx hy hne]
+
+/-- … otherwise the number of rows IS the length of every iterated argument, and one row when
+no argument is iterated. -/
+theorem formatlist_row_count (rest : List Value) (it : Option Nat) (hl : flLen rest none = .ok it) :
+    (∀ a ∈ rest, ∀ els, flSeq a = some els → it = some els.length) ∧
+    ((∀ a ∈ rest, flSeq a = none) → it = none) := by
+  refine ⟨(flLen_ok rest none it hl).2, ?_⟩
+  intro h
+  have := flLen_none_of_no_seq rest h
+  rw [hl] at this
+  cases this; rfl
+
+/-- Empty sequences give the empty list — without the format string being looked at. -/
+theorem formatlist_empty_sequences (L : Lib) (f : String) (rest : List Value) (hk : FlKnown rest) (hne : rest ≠ [])
+    (hl : flLen rest none = .ok (some 0)) :
+    formatListImpl L (sv f :: rest) = .ok ⟨.list .string, .seq []⟩ := by
+  have hlen : (rest.length == 0) = false := by
+    cases rest with
+    | nil => exact absurd rfl hne
+    | cons a t => rfl
+  unfold FlKnown at hk
+  simp [formatListImpl, hk, hlen, hl]
+
+/-- Without arguments `formatlist(f)` is the one-element list of `format(f)`. -/
+theorem formatlist_no_arguments (L : Lib) (f : String) :
+    formatListImpl L [sv f] =
+      (match formatImpl L [sv f] with
+       | .ok r => .ok ⟨.list .string, .seq [r.v]⟩
+       | .err e => .err e
+       | .panic w => .panic w
+       | .unmodelled => .unmodelled) := by
+  simp only [formatListImpl, arg0, Res.bind_ok, List.drop_succ_cons, List.drop_zero, List.any_nil, List.length_nil,
+    beq_self_eq_true, Bool.false_eq_true, if_false, if_true]
+  cases formatImpl L [sv f] <;> rfl
+
+/-- `formatlist` never panics, whatever the format string and the arguments. -/
+theorem formatlist_never_panics (L : Lib) (f : String) (rest : List Value) :
+    (formatListImpl L (sv f :: rest)).isPanic = false := by
+  simp only [formatListImpl, arg0, Res.bind_ok, List.drop_succ_cons, List.drop_zero]
+  split
+  · rfl
+  · split
+    · have := format_never_panics L f []
+      cases hx : formatImpl L [sv f] with
+      | ok r => rfl
+      | err e => rfl
+      | panic w => rw [hx] at this; simp [Res.isPanic] at this
+      | unmodelled => rfl
+    · simp only [asString_sv, Res.bind_ok]
+      rcases flLen_total rest none with ⟨r, hr⟩ | he
+      · rw [hr]
+        simp only
+        split
+        · rfl
+        · rw [flIter_eq]
+          have := collectRows_no_panic L ((List.range (r.getD 1)).map fun i => rowRes L f (flArgsAt rest i))
+            (by
+              intro x hx
+              obtain ⟨i, _, rfl⟩ := List.mem_map.mp hx
+              exact rowRes_no_panic L f _)
+          cases hc : collectRows L ((List.range (r.getD 1)).map fun i => rowRes L f (flArgsAt rest i)) with
+          | ok ps => rfl
+          | err e => rfl
+          | panic w => rw [hc] at this; simp [Res.isPanic] at this
+          | unmodelled => rfl
+      · rw [he]; rfl
+
 /-! ## Non-vacuity -/
 example : Normal (.fin true 5 (-1) 53) := by unfold Normal; decide
 example : ceilImpl [numVal (.fin true 5 (-1) 53)] = .ok (numVal (.fin true 1 1 53)) := rfl   -- ceil(-2.5) = -2
@@ -754,6 +875,12 @@ def exLib : Lib :=
     fmtFloat := fun _ _ => "", textG := fun _ => "", jsonStr := id }
 def exWide : VerbSyn := { flags := [], width := some "18446744073709551617".toList, prec := none, idx := none, mode := 'd' }
 example : formatAppend exLib (exWide.verb 0 1) [intVal 1] = .err "unsupported width" := by decide
+-- formatlist: a list, a tuple and a single value; two rows
+def exFl : List Value := [⟨.list .string, .seq [.s "a", .s "b"]⟩, ⟨.tuple [.number, .bool], .seq [.n (.fin false 1 0 64), .b true]⟩, sv "z"]
+example : FlKnown exFl := by unfold FlKnown; decide
+example : flLen exFl none = .ok (some 2) := by decide
+example : flArgsAt exFl 1 = [sv "b", ⟨.bool, .b true⟩, sv "z"] := by decide
+example : flLen [sv "x", intVal 3] none = .ok none := by decide
 -- indent: the side conditions are satisfiable, and 2^40 spaces on a string without a line break are fine
 example : countNewlines "a\nb\n".toList = 2 := by decide
 example : indentChars 2 "a\nb".toList = "a\n  b".toList := by decide
